@@ -23,6 +23,7 @@ import (
 	"github.com/avos-io/goat/gen/goatorepo"
 	"github.com/avos-io/goat/internal"
 	"github.com/avos-io/goat/internal/server"
+	"github.com/avos-io/goat/internal/verifhook"
 )
 
 // ServerOption is an option used when constructing a NewServer.
@@ -134,6 +135,7 @@ func (s *Server) RegisterService(sd *grpc.ServiceDesc, ss interface{}) {
 
 func (s *Server) Serve(ctx context.Context, rw RpcReadWriter) error {
 	h := newHandler(s.ctx, s, rw)
+	verifTrack(h)
 	err := h.serve(ctx)
 	h.cancelAndWaitForStreams()
 	return err
@@ -202,6 +204,7 @@ func (h *handler) serve(clientCtx context.Context) error {
 		for {
 			select {
 			case rpc := <-h.writeChan:
+				verifhook.At("srv.writer.taken")
 				err := h.rw.Write(h.ctx, rpc)
 				if err != nil {
 					h.cancel(fmt.Errorf("write error: %v", err))
